@@ -6,6 +6,7 @@ mbqm    : multiply_by_quantized_multiplier == TFLite MultiplyByQuantizedMultipli
 exp     : exp_on_interval... / exp_on_negative_values == gemmlowp structure (compositional, leaf as uninterpreted function).
 tables  : leaky-ReLU / requantise table entries == reference kernel arithmetic for symbolic quantisation parameters.
 """
+import numpy as np
 import z3
 
 from symx import core, npint, fp
@@ -857,6 +858,169 @@ def _hardswish_table(V, go, m, DataType, Op, dtype, code, relu_shift, out_shift,
         return [("hard-swish table[%d] == TFLite reference recipe" % code, npint.wide(vals[0]) == res)]
 
 
+class _NPF:
+    """numpy stand-in for float code: np.double on a float proxy is the exact widening to binary64, np.trunc works on proxies"""
+
+    @staticmethod
+    def double(x=0.0):
+        from symx import fp as _fp
+
+        if isinstance(x, _fp.SFloat):
+            return _fp.SFloat(_fp.as_f64(x), "f64")
+        return np.double(x)
+
+    float64 = double
+
+    @staticmethod
+    def trunc(x):
+        from symx import fp as _fp
+
+        return _fp.trunc(x)
+
+    def __getattr__(self, n):
+        return getattr(np, n)
+
+
+def lut8_wrapper(V, site, dtype, code, scale_kind, zp_in, zp_out, ofm_scale):
+    """the rounding wrapper around a tabulated real function (convert_to_lut8 in the graph optimiser, create_lut_8bit_op in lut.py), for one
+    input code: the function is called at the dequantised input ifm_scale * (code - zp_in), and for ANY value y it returns (a fresh symbolic
+    double) the entry is the saturated nearest integer to zp_out + y / ofm_scale.  The input scale and y are symbolic; the output scale and the
+    zero points are enumerated (a floating-point division by a SYMBOLIC divisor is beyond both z3 and cvc5: 120 s / 200 s time-outs measured on the
+    float32 query; by a constant it takes 4 s in float32, 27 s in double).  All in IEEE arithmetic; the oracle is phrased multiplicatively."""
+    import ethosu.vela.tflite_graph_optimiser as go
+    import ethosu.vela.lut as lut
+    import ethosu.vela.numeric_util as nu
+    from ethosu.vela.data_type import DataType
+    from symx import fp
+
+    qmin, qmax = (0, 255) if dtype == "uint8" else (-128, 127)
+    F64, RNE = fp.F64, fp.RNE
+    si = V.extra("float", "ifm_scale", scale_kind)
+    so = np.float32(ofm_scale) if scale_kind == "f32" else np.float64(ofm_scale)
+    y = V.extra("float", "function_value", "py")
+    d = lambda v: fp.as_f64(v) if isinstance(v, fp.SFloat) else z3.FPVal(float(v), F64)  # noqa
+    fv = lambda c: z3.FPVal(float(c), F64)  # noqa
+    if V.symbolic:
+        # y within 700 output steps of zero: covers every entry of the code range and saturation on both sides
+        V.assume(z3.And(z3.fpGEQ(d(si), fv(2.0 ** -12)), z3.fpLEQ(d(si), fv(4.0)), z3.fpGEQ(d(y), fv(-700.0 * ofm_scale)), z3.fpLEQ(d(y), fv(700.0 * ofm_scale))))
+    elif not (2.0 ** -12 <= float(si) <= 4.0 and -700.0 * ofm_scale <= float(y) <= 700.0 * ofm_scale):
+        raise core.PathAbort("replay value outside range")
+    dt = DataType.uint8 if dtype == "uint8" else DataType.int8
+    ifm = _Obj(dtype=dt, quantization=_Obj(scale_f32=si, zero_point=zp_in), name="ifm")
+    ofm = _Obj(dtype=dt, quantization=_Obj(scale_f32=so, zero_point=zp_out), name="ofm")
+    op = _Obj(ifm=ifm, ofm=ofm, get_ifm_ofm=lambda: (ifm, ofm), name="op")
+    seen, captured = [], {}
+
+    def fn(x_real):
+        seen.append(x_real)
+        return y
+
+    class _Codes:  # range stand-in: min()/max() see the whole code range, the table loop only the selected code
+        def __init__(self, r):
+            self.r, self.n = r, 0
+
+        def __iter__(self):
+            self.n += 1
+            return iter(self.r) if self.n <= 2 else iter([code])
+
+    def crange(*a_):
+        import builtins
+
+        r = builtins.range(*a_)
+        return _Codes(r) if len(r) == 256 else r
+
+    mod = go if site == "convert_to_lut8" else lut
+    saved = (mod.convert_to_lut, getattr(mod, "range", None))
+    mod.convert_to_lut = lambda op_, values, name: captured.setdefault("values", list(values))
+    mod.range = crange
+    try:
+        with core.shims((mod, {"np": _NPF(), "min": core.smin, "max": core.smax}), (nu, {"np": _NPF()})):
+            if site == "convert_to_lut8":
+                go.convert_to_lut8(op, fn, "f")
+            else:
+                lut.create_lut_8bit_op(op, fn, "f")
+    finally:
+        mod.convert_to_lut = saved[0]
+        if saved[1] is None:
+            del mod.range
+        else:
+            mod.range = saved[1]
+    vals = captured.get("values")
+    if vals is None or len(vals) != 1 or len(seen) != 1:
+        return [("one table entry produced from one call of the function", False)]
+    t = vals[0]
+    # everything below is phrased in the float type the code itself computes in (float32 where the scales stay float32, else double):
+    # the claims then share their terms with the code's own expression instead of adding a second, wider arithmetic for the solver
+    xs = seen[0]
+    kind = xs.kind if isinstance(xs, fp.SFloat) else "f64"
+    srt = fp.F32 if kind == "f32" else F64
+    cv = lambda v: z3.FPVal(float(v), srt)  # noqa
+    to = lambda v: fp.F(v) if (isinstance(v, fp.SFloat) and v.e.sort() == srt) else z3.fpToFP(RNE, fp.F(v), srt)  # noqa
+    sic, soc, yc = to(si), cv(so), to(y)
+    tf = to(t) if isinstance(t, fp.SFloat) else cv(t)
+    lhs = z3.fpAbs(z3.fpSub(RNE, z3.fpMul(RNE, z3.fpSub(RNE, tf, cv(zp_out)), soc), yc))
+    half = z3.fpMul(RNE, cv(0.5 + 2.0 ** -7), soc)
+    below = z3.fpLEQ(yc, z3.fpMul(RNE, cv(qmin - zp_out + 0.5 + 2.0 ** -7), soc))  # ideal value at or below the bottom code
+    above = z3.fpGEQ(yc, z3.fpMul(RNE, cv(qmax - zp_out - 0.5 - 2.0 ** -7), soc))
+    return [("the function is evaluated at the dequantised input ifm_scale * (code - zp_in), computed in %s" % kind,
+             z3.fpEQ(to(xs), z3.fpMul(RNE, sic, cv(code - zp_in)))),
+            ("the entry is an integer code of the type", z3.And(z3.fpGEQ(tf, cv(qmin)), z3.fpLEQ(tf, cv(qmax)), z3.fpEQ(tf, z3.fpRoundToIntegral(z3.RTZ(), tf)))),
+            ("the entry is the saturated nearest integer to zp_out + y / ofm_scale",
+             z3.Or(z3.fpLEQ(lhs, half), z3.And(z3.fpEQ(tf, cv(qmin)), below), z3.And(z3.fpEQ(tf, cv(qmax)), above)))]
+
+
+_EXPNF = {}
+
+
+def _EXPN(a):
+    w = npint.W
+    if w not in _EXPNF:
+        _EXPNF[w] = z3.Function("EXP_ON_NEGATIVE_%d" % w, z3.BitVecSort(w), z3.BitVecSort(w))
+    return _EXPNF[w](a)
+
+
+def softmax_table(V, left_shift):
+    """SoftMax.generate_exp_table (the 256-entry exp table of the int8/uint8 softmax): entry x == exp_on_negative_values(
+    SaturatingRoundingDoublingHighMul((x - 255) * 2^left_shift, multiplier)) when x - 255 >= -CalculateInputRadius(5, left_shift), else 0 -
+    TFLite's softmax preparation.  The Q31 multiplier is symbolic; the two fixed-point leaves are shared uninterpreted functions (each is
+    decided against gemmlowp by `kernel` / `exp_neg`); replay runs the real leaves against the concrete gemmlowp recipe."""
+    with _width(64):
+        import ethosu.vela.fp_math as m
+        import ethosu.vela.softmax as sm
+
+        with core.shims(*_shims()):
+            scale, w_sc = _operand(V, "beta_multiplier", "pyint", 1 << 30, (1 << 31) - 1)
+
+            def expn_stub(x):
+                return SNp(_lo(_EXPN(npint.wide(x)), 32), 32, True)  # the real function returns np.int32
+
+            def srm_stub(a, b):  # no magnitude axioms needed: the product only feeds the other leaf
+                return SNp(_lo(_SRM(npint.wide(a), npint.wide(b)), 64), 64, True)
+
+            saved = (m.saturating_rounding_mul32, m.exp_on_negative_values, sm.scaling.quantise_scale)
+            sm.scaling.quantise_scale = lambda x: (scale, 31 - left_shift)
+            if V.symbolic:
+                m.saturating_rounding_mul32 = srm_stub
+                m.exp_on_negative_values = expn_stub
+            try:
+                table = sm.SoftMax.generate_exp_table(None, 1.0, 1.0)
+            except (OverflowError, AssertionError, TypeError) as e:
+                return [("generate_exp_table raised %s: %s" % (type(e).__name__, str(e)[:80]), False)]
+            finally:
+                m.saturating_rounding_mul32, m.exp_on_negative_values, sm.scaling.quantise_scale = saved
+        cl = [("the table has 256 entries", len(table) == 256)]
+        radius = (31 * (1 << 26)) >> left_shift  # CalculateInputRadius(input_integer_bits = 5, input_left_shift)
+        for x in range(min(len(table), 256)):
+            d = x - 255
+            if V.symbolic:
+                want = _sx(_lo(_EXPN(_sx(_lo(_SRM(_c(d * (1 << left_shift)), w_sc), 64))), 32)) if d >= -radius else _c(0)
+                cl.append(("exp table[%d]" % x, _res(table[x]) == want))
+            else:
+                want = _conc_exp_neg(_conc_srdhm(d * (1 << left_shift), int(scale))) if d >= -radius else 0
+                cl.append(("exp table[%d]" % x, int(table[x]) == want))
+        return cl
+
+
 def _shash(x):
     """model of the built-in hash() for the keys the repository hashes itself (ints and tuples of ints): CPython's int hash is the value
     (for |x| < 2^61 - 1) except hash(-1) == -2; the tuple mixing is modelled as collision-free (an injective combination of the element
@@ -914,11 +1078,12 @@ def lut_identity(V, n_sym):
 
 
 CAPS = {"quick": {}, "thorough": {}}
+FRESH_FINAL = {"lut8_wrapper"}  # float queries: decided by a fresh (non-incremental, tactic-based) z3 solver; the incremental core times out on them
 RLIMIT = 2_000_000_000  # the 32x32->64 multiplier equivalences need far more solver resource than the engine default
 
 FUNCS = {"kernel": kernel, "mbqm": mbqm, "exp_interval": exp_interval, "exp_neg": exp_neg, "exp_neg_struct": exp_neg_struct,
          "lrelu_table": lrelu_table, "quantize_fold": quantize_fold, "hardswish_table": hardswish_table, "quantize_scale": quantize_scale, "tanh_fn": tanh_fn,
-         "lut_identity": lut_identity}
+         "lut_identity": lut_identity, "softmax_table": softmax_table, "lut8_wrapper": lut8_wrapper}
 
 
 def instances(tier, seed):
@@ -1003,6 +1168,19 @@ def instances(tier, seed):
                                                                               zp_in_value=zpi, abstract_mul=False, fixed=[which, mult]), weight=30))
     for dtype in ("int8", "int16"):
         out.append(dict(key="quantize_scale/%s" % dtype, fn="quantize_scale", params=dict(dtype=dtype)))
+    for left_shift in ((0, 5, 20, 24) if quick else range(0, 27)):
+        out.append(dict(key="softmax_table/shift%d" % left_shift, fn="softmax_table", params=dict(left_shift=left_shift)))
+    for site, kinds in (("convert_to_lut8", ("f32", "f64")), ("create_lut_8bit_op", ("f32",))):
+        for dtype in ("int8", "uint8"):
+            qmin = 0 if dtype == "uint8" else -128
+            # quick: one code per site and type; thorough: 6 codes, two zero-point pairs, two output scales (a double-precision instance takes up to 10 min)
+            for code in ((qmin + 100 + seed % 7,) if quick else range(qmin + seed % 51, qmin + 256, 51)):
+                for sk in (kinds[:1] if quick else kinds):
+                    for zi, zo in (((qmin + 3, qmin + 128),) if quick else ((qmin + 3, qmin + 128), (qmin + 255, qmin))):
+                        # quick: a power-of-two output scale (the division is then exact and the query takes seconds); thorough adds 0.0123
+                        for osc in ((0.5,) if quick else (0.0123, 0.5)):
+                            out.append(dict(key="lut8_wrapper/%s/%s/code%d/%s/zp%d_%d/so%g" % (site, dtype, code, sk, zi, zo, osc), fn="lut8_wrapper",
+                                            params=dict(site=site, dtype=dtype, code=code, scale_kind=sk, zp_in=zi, zp_out=zo, ofm_scale=osc), weight=2000))
     for n_sym in (1, 2, 3):
         out.append(dict(key="lut_identity/%d" % n_sym, fn="lut_identity", params=dict(n_sym=n_sym)))
     for which in ("tanh", "sigmoid"):
